@@ -7,8 +7,9 @@ worlds per process.
  (i)  `parallel.iter_unordered` — the communication log of every run is translated event by
       event into choices of Model/Dispatch.v and replayed in Coq (`c06_dispatch_case`): every
       event must be enabled, the model's yield order must equal the root's, and the root must
-      have got map f tasks as a multiset, every task executed once.  For <= 3 tasks all
-      sequences of wildcard choices are enumerated.
+      have got map f tasks as a multiset, every task executed once (model of the REPAIRED
+      algorithm: root fallback when no worker rank is allowed).  For <= 3 tasks all sequences of
+      wildcard choices are enumerated.
  (ii) `Catalog.from_dataframe` (MPI write pipeline), `Catalog(cache)`, `build_trees`,
       `autocorrelate`, `crosscorrelate`, `HistData.from_catalog`, `HistData.to_files/from_files`,
       `CorrFunc.to_file/from_file`: root results must equal the single-process run computed in
@@ -162,8 +163,10 @@ def dispatch_jobs(ctx, size, mode, batch):
     return jobs
 
 
-def translate(log, size):
-    """communication log of one iter_unordered run -> list of model choices (strings)"""
+def translate(log, size, nroot=0):
+    """communication log of one iter_unordered run -> list of model choices (strings);
+    nroot = number of tasks the job function ran on the root rank (root fallback of the repaired
+    _mpi_iter_unordered: after _mpi_root_task, before the barrier)"""
     nworkers = size - 1
     bars = [e[0] for e in log if e[2] == "done:Barrier" and e[5] == 0]
     last_bar = bars[-1] if bars else None
@@ -188,6 +191,7 @@ def translate(log, size):
         elif op == "recv" and rank != 0 and peer == 0 and tag == 1:
             out.append("%s %d" % ("CWEoq" if summ == EOQ else "CWTask", rank - 1))
         elif op == "enter:Barrier" and rank == 0:
+            out.extend(["CFallback"] * nroot)
             out.append("CExit")
         elif op == "done:Barrier" and n == last_bar:
             out.append("CBar")
@@ -236,8 +240,11 @@ def handle_dispatch(ctx, st, size, j, res):
             continue
         got = run["ranks"]["0"]["value"]
         ran = [t for _, t in run["executed"]]
-        choices = translate(run["log"], size)
-        term = "c06_dispatch_case %s %s %s %s %s %s %s" % (
+        nroot = sum(1 for r, _ in run["executed"] if r == 0)
+        if nroot:
+            ctx.bump("dispatch_runs_with_root_fallback")
+        choices = translate(run["log"], size, nroot)
+        term = "c06_dispatch_case true %s %s %s %s %s %s %s" % (
             fq.b(mode == "sync"), fq.nat(size - 1), fq.nlist(sorted(ranks)), fq.nlist(tasks),
             fq.lst(choices), fq.nlist(got), fq.nlist(ran))
         st["terms"].append(term)
@@ -260,7 +267,7 @@ def finish_dispatch(ctx, st):
             workers = [x for x in m["ranks"] if x > 0]
             if not workers and m["got"] == [] and m["ran"] == [] and m["tasks"]:
                 ctx.fail(F13A, "iter_unordered(max_workers=1) on %d ranks: ranks={0}, every worker gets the end-of-queue "
-                               "sentinel, no task is executed, the root yields nothing (expected %d results)"
+                               "sentinel, no task is executed (no root fallback), the root yields nothing (expected %d results)"
                          % (r["world_size"], len(m["want"])), r, case=m["idx"])
             else:
                 ctx.fail("c06-dispatch-root-result-differs",
@@ -314,12 +321,14 @@ def pipeline_worlds(ctx):
         dict(size=4, mw=None, mode="eager", policy="fifo", seed=0, spec="B", tag="arrival-order"),
         dict(size=5, mw=None, mode="eager", policy="high", seed=0, spec="E", tag="reader-last"),
         dict(size=2, mw=1, mode="eager", policy="low", seed=0, spec="F", tag="F13a-load", ops=["load"], create=False),
+        dict(size=3, mw=1, mode="sync", policy="random", seed=7, spec="A", tag="root-fallback-pipeline", create=False),
     ]
     n = ctx.n(28, 350) - len(worlds)
     names = sorted(SPECS)
     for _ in range(n):
         size = rng.choice([2, 3, 3, 4, 4, 5])
-        worlds.append(dict(size=size, mw=rng.choice([None, None, 2, 3, size]), spec=rng.choice(names),
+        mw = rng.choice([None, None, 2, 3, size, 1])
+        worlds.append(dict(size=size, mw=mw, spec=rng.choice(names), create=(mw != 1),
                            mode=rng.choice(["eager", "sync", "sync", "mixed"]),
                            policy=rng.choice(["random", "random", "random", "low", "high", "fifo", "lifo"]),
                            seed=rng.randrange(10 ** 6), tag="random"))
@@ -386,8 +395,21 @@ def handle_pipeline(ctx, w, ref, out):
             ctx.bump("create_senders:%d" % len(senders))
             if run["leftover"]:
                 ctx.bump("create_runs_with_unreceived_messages")
+            # C06_write_stopped_rest on the implementation: per patch, stored + unreceived = input
+            rest = {}
+            for m in run["leftover"]:
+                if m[1] == 1 and m[2] == 1 and m[3] == 0 and m[4].startswith("dict:{"):
+                    for item in m[4][6:-1].split(", "):
+                        if ":" in item:
+                            k, v = item.split(":")
+                            rest[k.strip()] = rest.get(k.strip(), 0) + int(v)
+            cons = all(len(want[p]["rows"]) == len(val.get(p, {}).get("rows", [])) + rest.get(p, 0) for p in want) \
+                and set(val) <= set(want)
+            ctx.bump("create_conservation_ok" if cons else "create_conservation_broken")
+            if not cons and not diff:
+                ctx.disagree("write-conservation(stored+unreceived=input)", idx, dict(replay=replay, unreceived=run["leftover"][:6]))
             if diff:
-                if is_f13b(run):
+                if cons and is_f13b(run):
                     lost = sum(len(v["rows"]) for v in want.values()) - sum(len(v["rows"]) for v in val.values())
                     ctx.fail(F13B, "Catalog.from_dataframe on %d ranks (max_workers=%s, eager sends): the writer's wildcard receive "
                                    "matched the reader's end-of-queue sentinel while %d patch dictionaries of other ranks were still "
@@ -506,7 +528,7 @@ def run(ctx):
                                dispatch_runs=len(st["terms"]) + len(st["noterm"]),
                                max_process_wall_s=max(walls) if walls else None)
     ctx.extra["hypotheses_checked"] = ["every logged event enabled in Model/Dispatch.v step_with (flag0)",
-                                       "some worker rank allowed (hypothesis of dispatch_exactly_once) — false exactly in the F13a cases"]
+                                       "none needed: dispatch_exactly_once_total has no hypothesis on the rank set"]
 
 
 def replay(ctx, data):
